@@ -25,7 +25,9 @@ def profile(r, tier, index):
         "mailboxes": ["inbox", "a", "a/b"][: r.randint(1, 3)], "sessions": r.randint(1, 2), "weights": W, "init_hi": 3,
         "ops_lo": 8, "ops_hi": 40 if tier == "thorough" else 26, "mode": "sequential", "examine_p": 0.1, "gc_p": 0.3, "inbox_children_p": 0.6,
         # names that only differ in case, and names in which '_' (an SQL LIKE wildcard) stands where another name has a letter
-        "name_alphabet": r.choice((["a", "b", "a b", "x.y", "p+q", "[z]"], ["a", "A", "a_b", "axb", "a b", "x.y"], ["a", "A", "b", "B", "a_b", "aXb"])),
+        "name_alphabet": r.choice((["a", "b", "a b", "x.y", "p+q", "[z]"], ["a", "A", "a_b", "axb", "a b", "x.y"], ["a", "A", "b", "B", "a_b", "aXb"],
+                                    # names that begin like INBOX are mailboxes of their own; "Inbox" as a first part is INBOX
+                                    ["a", "inboxes", "Inbox", "inbox-old", "INBOX.x", "b"])),
     }
 
 
